@@ -370,10 +370,12 @@ func getDec(n int) *dec {
 		z = new(dec)
 	}
 	*z = z.make(n)
+	verifPoolGet(z)
 	return z
 }
 
 func putDec(x *dec) {
+	verifPoolPut(x)
 	decPool.Put(x)
 }
 
@@ -452,6 +454,7 @@ func (q dec) divBasic(u, v dec) {
 			// test if q̂v_{n-2} > br̂ + u_{j+n-2}
 			ujn2 := u[j+n-2]
 			for greaterThan(x1, x2, rhat, ujn2) {
+				verifHit(verifSiteDivQhatFix)
 				qhat--
 				prevRhat := rhat
 				rhat += vn1
@@ -473,6 +476,7 @@ func (q dec) divBasic(u, v dec) {
 		}
 		c := sub10VV(u[j:j+qhl], u[j:], qhatv)
 		if c != 0 {
+			verifHit(verifSiteDivAddBack)
 			c := add10VV(u[j:j+n], u[j:], v)
 			// If n == qhl, the carry from subVV and the carry from addVV
 			// cancel out and don't affect u[j+n].
@@ -630,6 +634,7 @@ func (z dec) sqr(x dec) dec {
 // Requirements: len(x) > 0, len(z) == 2*len(x)
 // The (non-normalized) result is placed in z.
 func decBasicSqr(z, x dec) {
+	verifHit(verifSiteBasicSqr)
 	n := len(x)
 	tp := getDec(2 * n)
 	t := *tp // temporary variable to hold the products
@@ -661,6 +666,7 @@ func decKaratsubaSqr(z, x dec) {
 		return
 	}
 
+	verifHit(verifSiteKaratsubaSqr)
 	n2 := n >> 1
 	x1, x0 := x[n2:], x[0:n2]
 
@@ -795,6 +801,7 @@ func (z dec) mul(x, y dec) dec {
 func (z dec) divRecursive(u, v dec) {
 	// Recursion depth is less than 2 log2(len(v))
 	// Allocate a slice of temporaries to be reused across recursion.
+	verifHit(verifSiteDivRecursive)
 	recDepth := 2 * bits.Len(uint(len(v)))
 	// large enough to perform Karatsuba on operands as large as v
 	tmp := getDec(3 * len(v))
@@ -883,6 +890,7 @@ func (z dec) divRecursiveStep(u, v dec, depth int, tmp *dec, temps []*dec) {
 			if e <= 0 {
 				break
 			}
+			verifHit(verifSiteDivRecFix1)
 			sub10VW(qhat, qhat, 1)
 			c := sub10VV(qhatv[:s], qhatv[:s], v[:s])
 			if len(qhatv) > s {
@@ -914,6 +922,7 @@ func (z dec) divRecursiveStep(u, v dec, depth int, tmp *dec, temps []*dec) {
 	// Set the correct remainder as before.
 	for i := 0; i < 2; i++ {
 		if e := qhatv.cmp(u.norm()); e > 0 {
+			verifHit(verifSiteDivRecFix2)
 			sub10VW(qhat, qhat, 1)
 			c := sub10VV(qhatv[:s], qhatv[:s], v[:s])
 			if len(qhatv) > s {
@@ -981,6 +990,7 @@ func decKaratsuba(z, x, y dec) {
 		return
 	}
 	// n&1 == 0 && n >= karatsubaThreshold && n >= 2
+	verifHit(verifSiteKaratsuba)
 
 	// Karatsuba multiplication is based on the observation that
 	// for two numbers x and y with:
@@ -1061,6 +1071,7 @@ func decKaratsuba(z, x, y dec) {
 	if s > 0 {
 		decKaratsubaAdd(z[n2:], p, n)
 	} else {
+		verifHit(verifSiteKaratsubaNeg)
 		decKaratsubaSub(z[n2:], p, n)
 	}
 }
